@@ -477,6 +477,44 @@ def rule_r8(repo, run, types):
     run.floor(R, "type groups with Lua push/pop", k, 6)
 
 
+def rule_r9(repo, run):
+    R = run.rule("C18.R9", "a Lua wrapper function is a definition: in a C library every parameter of it has a name "
+                           "(`static int f(lua_State *)` is C++ only)")
+    wl = repo.module("wrapl")
+    wf = wl.func("Wrapl.wrap_function")
+    unnamed = [c for c in ast.walk(wf) if isinstance(c, ast.Constant) and isinstance(c.value, str) and re.search(r"\(lua_State \*\)", c.value)]
+    if not unnamed:
+        run.ok(R, "wrapl.Wrapl.wrap_function:state-parameter-named")
+        return
+    for c in unnamed:
+        atoms = pyflow.path_atoms(c, stop=wf, seg=ast.unparse)
+        excl = any(("self.language == 'c'" in t and not pol) or ("self.language != 'c'" in t and pol) for t, pol in atoms)
+        run.check(R, "wrapl.Wrapl.wrap_function:unnamed-state-parameter", excl,
+                  "`%s` is written whenever the function does not use the state, also for `language: c`: an unnamed parameter in a "
+                  "function definition is an error in C (gcc -std=c99 -pedantic-errors)" % c.value, wl.loc(c))
+
+
+def rule_r10(repo, run):
+    R = run.rule("C18.R10", "every Lua API call in the wrapper text names the state through {LUA_state_var} "
+                            "(the name of the parameter is a format field the user may set)")
+    wl = repo.module("wrapl")
+    api = re.compile(r"\b(lua[L]?_\w+)\s*\(\s*([A-Za-z_]\w*)\s*[,)]")
+    n = 0
+    for c in ast.walk(wl.tree):
+        if not (isinstance(c, ast.Constant) and isinstance(c.value, str)):
+            continue
+        for mo in api.finditer(c.value):
+            n += 1
+            run.check(R, "wrapl:%s-state-argument" % mo.group(1), False,
+                      "`%s` passes the literal name `%s` as the Lua state; the wrapper's parameter is called {LUA_state_var}, "
+                      "which `format: LUA_state_var:` can change" % (mo.group(0), mo.group(2)), wl.loc(c))
+    uses = [c for c in ast.walk(wl.tree) if isinstance(c, ast.Constant) and isinstance(c.value, str)
+            and re.search(r"\blua[L]?_\w+\(\{LUA_state_var\}", c.value)]
+    run.floor(R, "Lua API calls through {LUA_state_var}", len(uses), 6)
+    if not n:
+        run.ok(R, "wrapl:state-argument-is-a-field", sample=dict(calls=len(uses)))
+
+
 def run(repo, run, tier):
     tables.check_model_assumptions(repo)
     types = tables.TypeTable(repo)
@@ -488,3 +526,5 @@ def run(repo, run, tier):
     rule_r6(repo, run)
     rule_r7(repo, run)
     rule_r8(repo, run, types)
+    rule_r9(repo, run)
+    rule_r10(repo, run)
